@@ -32,6 +32,7 @@ var (
 	verif    = flag.String("verif", "/verif", "verification directory")
 	replay   = flag.String("replay", "", "replay file to re-execute")
 	multiOK  = flag.Bool("multi", true, "multiReadCloser sub-leg was built")
+	noProbe  = flag.Bool("no-probe", false, "skip the invocation-independence probe (to exercise the fallback that repeats the exploration)")
 	selftest = flag.Bool("selftest-determinism", false, "run the determinism self-test instead of the check")
 	budgetS  = flag.Int("budget", 0, "thorough tier wall-clock budget in seconds (VERIF_BUDGET_S)")
 	noEvid   = flag.Bool("no-evidence", false, "do not write the evidence file (self-tests)")
@@ -51,6 +52,7 @@ func simJob(cmd c16sim.Command, gomaxprocs int, timeout time.Duration) (*drv.Job
 	if cmd.Out == "" {
 		cmd.Out = filepath.Join(*work, fmt.Sprintf("out-%d.json", cmdSeq))
 	}
+	cmd.Isolate = isolate
 	if err := drv.WriteJSON(cmdPath, cmd); err != nil {
 		fatal("%v", err)
 	}
@@ -156,7 +158,18 @@ func tail(b []byte) string {
 	return s
 }
 
+// isolate: every execution of the tool's run function happens in a process of its own (c16sim/exec.go).
+var isolate bool
+
+// suspectCarry: a violation seen in a process that had executed other cases before did not reproduce in a
+// process of its own.
+var suspectCarry bool
+
 func quickCfg(seed uint64) c16sim.WorkerConfig {
+	if isolate {
+		// a process per execution costs milliseconds instead of microseconds: a quarter of the scripts
+		return c16sim.WorkerConfig{Seed: seed, Scripts: 65, SweepFirst: 4, SweepEvery: 40, Benign: 5, Faulty: 5, MaxSweepLen: 1000}
+	}
 	return c16sim.WorkerConfig{Seed: seed, Scripts: 260, SweepFirst: 10, SweepEvery: 40, Benign: 5, Faulty: 5, MaxSweepLen: 1500}
 }
 
@@ -179,8 +192,33 @@ func main() {
 	if *selftest {
 		os.Exit(doSelftestDeterminism(parallel))
 	}
+	if explore(parallel) {
+		explore(parallel)
+	}
+}
+
+// explore is one pass of the check; it returns true (instead of exiting) if the pass has to be repeated
+// with every execution in a process of its own.
+func explore(parallel int) bool {
 	start := time.Now()
 	base := *seedFlag
+	a := newAgg()
+	if !isolate && !*noProbe {
+		// Does the outcome of a case depend on what the same process executed before it? The tool runs once
+		// per process; the simulation runs it thousands of times per process and must not blame the tool for
+		// state it keeps for the one translation of its life.
+		j, out := simJob(c16sim.Command{Mode: "probe", Worker: c16sim.WorkerConfig{Seed: prng.Derive(base, "c16-probe", 0), MultiOK: *multiOK}}, 0, 10*time.Minute)
+		drv.RunJob(j)
+		var pr c16sim.ProbeResult
+		if j.ExitCode != 0 || j.TimedOut || drv.ReadJSON(out, &pr) != nil {
+			fmt.Printf("%s\n%s\n", tail(j.Stdout), tail(j.Stderr))
+			fatal("the invocation-independence probe did not complete")
+		}
+		if pr.StateCarried {
+			isolate = true
+			fmt.Printf("note: cmd/pql keeps state between calls of run in one process (%s). The command-line tool calls run once per process, so this is not a violation; every simulated execution now happens in a process of its own (slower, fewer scripts).\n", pr.Detail)
+		}
+	}
 	fmt.Printf("C16 %s tier, VERIF_SEED=%d, %d parallel simulation processes\n", *tier, base, parallel)
 
 	if old, _ := filepath.Glob(filepath.Join(*verif, "replays", fmt.Sprintf("C16-%d-*.json", base))); len(old) > 0 {
@@ -188,7 +226,6 @@ func main() {
 			os.Remove(f)
 		}
 	}
-	a := newAgg()
 	var detCfgs []c16sim.WorkerConfig
 	bases := []uint64{base}
 	switch *tier {
@@ -307,6 +344,12 @@ func main() {
 		fmt.Printf("  class=%s regime=%s key=%s replay_verified=%v\n  %s\n  input=%q\n", final.Class, final.Violation.Verdict.Regime, key, final.ReplayVerified, final.Violation.Verdict.Detail, clipS(string(final.Violation.Case.Input)))
 		reported++
 	}
+	if suspectCarry && !isolate {
+		isolate = true
+		suspectCarry = false
+		fmt.Println("note: a violation observed after other executions in the same process did not reproduce in a process of its own: the tool may keep state between calls of run, which the command-line tool (one call per process) never exercises. Discarding the in-process results of this pass and repeating the exploration with every execution in a process of its own.")
+		return true
+	}
 	for _, rv := range races {
 		path := filepath.Join(*verif, "replays", fmt.Sprintf("C16-%d-%d.json", base, n))
 		n++
@@ -362,6 +405,7 @@ func main() {
 		os.Exit(drv.ExitViolation)
 	}
 	fmt.Println("C16 held on everything explored")
+	return false
 }
 
 func clipS(s string) string {
@@ -403,7 +447,11 @@ func finalizeReplay(rf c16sim.ReplayFile) c16sim.ReplayFile {
 	// fall back to the unminimised case
 	orig.ReplayVerified = replayOnce(orig)
 	if !orig.ReplayVerified {
-		fmt.Println("HARNESS-NONDETERMINISM: an observed violation did not reproduce on replay; reporting it unminimised")
+		if !isolate {
+			suspectCarry = true
+		} else {
+			fmt.Println("note: an observed violation did not reproduce on replay (the tool is not deterministic); reporting it unminimised")
+		}
 	}
 	return orig
 }
@@ -610,6 +658,8 @@ func writeEvidence(a *agg, pl *procLevelResult, base uint64, bases []uint64, wal
 			"known_findings_matched":           known,
 			"determinism_recheck":              "3 process seeds re-executed at GOMAXPROCS=1, event-log digests identical",
 			"multi_read_closer_leg_built":      *multiOK,
+			"one_process_per_execution":        isolate,
+			"invocation_independence_probe":    map[bool]string{false: "the outcome of a case did not depend on what the same process had executed before it: many executions per simulation process", true: "cmd/pql keeps state between calls of run in one process: every execution ran in a process of its own"}[isolate],
 			"real_components":                  []string{"cmd/pql run()", "cmd/pql multiReadCloser", "bufio.Scanner", "pql", "pql/parser", "process-level leg: the whole binary, kernel file I/O"},
 			"stubbed_components":               []string{"io.Reader behind run (simulated, seeded)", "io.Writer (recording, never faulted)", "error sink (counting)"},
 			"parallel_processes":               parallel,
